@@ -18,6 +18,7 @@ template< typename Rule > struct ACSD : change_state< VSD > {};
 template< typename Rule > struct NA : nothing< Rule > {};
 template< typename Rule > struct NA2 : nothing< Rule > {};
 template< typename Rule > struct ACAS : change_action_and_state< NA2, VS > {};
+template< typename Rule > struct ACASD : change_action_and_state< NA2, VSD > {};
 template< typename Rule > struct NC : normal< Rule > {};
 }
 '''
@@ -28,6 +29,7 @@ OPS = {
     'chstate': ('change_state< VS >::match< R<0>, A%d, M%d, ACS, normal >( in, os )', 'VS', 'action-only'),
     'chstated': ('change_state< VSD >::match< R<0>, A%d, M%d, ACSD, normal >( in, os )', 'VSD', 'action-only'),
     'chactst': ('change_action_and_state< NA2, VS >::match< R<0>, A%d, M%d, ACAS, normal >( in, os )', 'VS', 'action-only'),
+    'chactstd': ('change_action_and_state< NA2, VSD >::match< R<0>, A%d, M%d, ACASD, normal >( in, os )', 'VSD', 'action-only'),
     'chaction': ('change_action< NA >::match< R<0>, A%d, M%d, nothing, normal >( in )', None, None),
     'chcontrol': ('change_control< NC >::match< R<0>, A%d, M%d, nothing, normal >( in )', None, None),
     'enaction': ('enable_action::match< R<0>, A%d, M%d, nothing, normal >( in )', None, None),
@@ -116,7 +118,7 @@ def jobs(tier):
                     con.add(c)
                 con.add(E('!vf_exc.pending ==> (g_called[0] && g_ncalls[0] == 1 && RET == g_ok[0] && (RET ==> CONSUMED(in) == g_len[0]))', 'SWITCH-IS-TRANSPARENT-FOR-RESULT-AND-CURSOR', P))
                 if st:
-                    act = {'chstate': 'vf::ACS', 'chstated': 'vf::ACSD', 'chactst': 'vf::NA2'}.get(op)
+                    act = {'chstate': 'vf::ACS', 'chstated': 'vf::ACSD', 'chactst': 'vf::NA2', 'chactstd': 'vf::NA2'}.get(op)
                     stubs.append((r'^bool vf::R<\d+>::match<', rule_stub_state(a, m, action=act)))
                     stubs.append((r'vf::%s::%s[<(]' % (st, st), ctor_stub(st == 'VS')))
                     stubs.append((r'vf::%s::~%s\(' % (st, st), dtor_stub()))
